@@ -514,6 +514,25 @@ pub open spec fn next_event_ok(st: &ParseState, rest: Seq<u8>) -> bool {
 		&&& (ec == 0x3A && ver(st).ge(3, 0) ==> rows_level(st))
 	}
 }
+// completeness: a sized event consistent with the open frame (next_event_ok) whose payload is at least as long as its version's
+// fields is ACCEPTED -- whatever follows those fields (newer minor versions append bytes) and whatever the field values are
+pub open spec fn event_long_enough(st: &ParseState, rest: Seq<u8>) -> bool {
+	&&& rest.len() >= 1 && payload_size(st, rest[0]) > 0 && rest.len() >= 1 + payload_size(st, rest[0])
+	&&& {
+		let code0 = rest[0];
+		let p = rest.subrange(1, 1 + payload_size(st, code0));
+		let ec = eff_code(st, code0, p);
+		let ep = eff_payload(st, code0, p);
+		let v = ver(st);
+		&&& ec != 0x35 && ec != 0x36
+		&&& (ec == 0x37 ==> ep.len() >= 6 + Pre::size_spec(v))
+		&&& (ec == 0x38 ==> ep.len() >= 6 + Post::size_spec(v))
+		&&& (ec == 0x3A ==> ep.len() >= 4 + Start::size_spec(v))
+		&&& (ec == 0x3B ==> ep.len() >= 4 + Item::size_spec(v))
+		&&& (ec == 0x3C ==> ep.len() >= 4 + End::size_spec(v))
+		&&& (ec == 0x39 ==> game_end_spec(ep) is Some)
+	}
+}
 // --- effect of one character event on that character's columns
 pub open spec fn char_pre_updated(a: &Data, b: &Data, p: Seq<u8>, v: Version) -> bool {
 	&&& Pre::pushed_row(a.pre, b.pre, skip(p, 6), 0, v) /*[C03.pre_header_6_bytes]*/
@@ -617,6 +636,7 @@ pub open spec fn event_effect(a: &ParseState, b: &ParseState, code0: u8, p: Seq<
 		res is Ok ==> rows_aligned(&*final(state)) /*[C04.rows_stay_aligned_with_frames]*/,
 		res is Ok ==> event_effect(&*old(state), &*final(state), (*old(r)).rest()[0], (*old(r)).rest().subrange(1, 1 + payload_size(&*old(state), (*old(r)).rest()[0]))) /*[C04.event_effect]*/,
 		(*final(r)).hit_eof() ==> res is Err /*[C07.eof_is_an_error]*/,
+		event_long_enough(&*old(state), (*old(r)).rest()) ==> res is Ok /*[C08.sized_event_accepted]*/,
 //@before let mut code
 	let ghost mut mid: Seq<PortData> = Seq::empty();
 //@after frame_close#2
@@ -644,6 +664,7 @@ pub open spec fn event_effect(a: &ParseState, b: &ParseState, code0: u8, p: Seq<
 		res is Ok ==> rows_aligned(&*final(state)) /*[C04.rows_stay_aligned_with_frames]*/,
 		res is Ok ==> event_effect(&*old(state), &*final(state), (*old(r)).rest()[0], (*old(r)).rest().subrange(1, 1 + payload_size(&*old(state), (*old(r)).rest()[0]))) /*[C04.event_effect]*/,
 		(*final(r)).hit_eof() ==> res is Err /*[C07.eof_is_an_error]*/,
+		event_long_enough(&*old(state), (*old(r)).rest()) ==> res is Ok /*[C08.sized_event_accepted]*/,
 //@end
 //@fn src/io/slippi/de.rs | - | parse_event | ret=res | twin=__start | drop=if let Some\(ref d\) = opts | drop=\*state\.event_counts\.entry | sigsub=/mut r: R,/r: &mut R,/ | sub=/r.read_exact(&mut buf)?/r.read_exact(buf.as_mut_slice())?/ | sub=/bytes: buf.to_vec(),/bytes: to_vec_u8(&buf),/
 	requires within_input_bound(&*old(state)), state_swf(&*old(state)), (*old(r)).inv(),
@@ -658,6 +679,7 @@ pub open spec fn event_effect(a: &ParseState, b: &ParseState, code0: u8, p: Seq<
 		res is Ok ==> rows_aligned(&*final(state)) /*[C04.rows_stay_aligned_with_frames]*/,
 		res is Ok ==> event_effect(&*old(state), &*final(state), (*old(r)).rest()[0], (*old(r)).rest().subrange(1, 1 + payload_size(&*old(state), (*old(r)).rest()[0]))) /*[C04.event_effect]*/,
 		(*final(r)).hit_eof() ==> res is Err /*[C07.eof_is_an_error]*/,
+		event_long_enough(&*old(state), (*old(r)).rest()) ==> res is Ok /*[C08.sized_event_accepted]*/,
 //@end
 //@fn src/io/slippi/de.rs | - | parse_event | ret=res | twin=__item | drop=if let Some\(ref d\) = opts | drop=\*state\.event_counts\.entry | sigsub=/mut r: R,/r: &mut R,/ | sub=/r.read_exact(&mut buf)?/r.read_exact(buf.as_mut_slice())?/ | sub=/bytes: buf.to_vec(),/bytes: to_vec_u8(&buf),/
 	requires within_input_bound(&*old(state)), state_swf(&*old(state)), (*old(r)).inv(),
@@ -672,6 +694,7 @@ pub open spec fn event_effect(a: &ParseState, b: &ParseState, code0: u8, p: Seq<
 		res is Ok ==> rows_aligned(&*final(state)) /*[C04.rows_stay_aligned_with_frames]*/,
 		res is Ok ==> event_effect(&*old(state), &*final(state), (*old(r)).rest()[0], (*old(r)).rest().subrange(1, 1 + payload_size(&*old(state), (*old(r)).rest()[0]))) /*[C04.event_effect]*/,
 		(*final(r)).hit_eof() ==> res is Err /*[C07.eof_is_an_error]*/,
+		event_long_enough(&*old(state), (*old(r)).rest()) ==> res is Ok /*[C08.sized_event_accepted]*/,
 //@end
 //@fn src/io/slippi/de.rs | - | parse_event | ret=res | twin=__end | drop=if let Some\(ref d\) = opts | drop=\*state\.event_counts\.entry | sigsub=/mut r: R,/r: &mut R,/ | sub=/r.read_exact(&mut buf)?/r.read_exact(buf.as_mut_slice())?/ | sub=/bytes: buf.to_vec(),/bytes: to_vec_u8(&buf),/
 	requires within_input_bound(&*old(state)), state_swf(&*old(state)), (*old(r)).inv(),
@@ -686,6 +709,7 @@ pub open spec fn event_effect(a: &ParseState, b: &ParseState, code0: u8, p: Seq<
 		res is Ok ==> rows_aligned(&*final(state)) /*[C04.rows_stay_aligned_with_frames]*/,
 		res is Ok ==> event_effect(&*old(state), &*final(state), (*old(r)).rest()[0], (*old(r)).rest().subrange(1, 1 + payload_size(&*old(state), (*old(r)).rest()[0]))) /*[C04.event_effect]*/,
 		(*final(r)).hit_eof() ==> res is Err /*[C07.eof_is_an_error]*/,
+		event_long_enough(&*old(state), (*old(r)).rest()) ==> res is Ok /*[C08.sized_event_accepted]*/,
 //@end
 //@fn src/io/slippi/de.rs | - | parse_event | ret=res | twin=__splitter | drop=if let Some\(ref d\) = opts | drop=\*state\.event_counts\.entry | sigsub=/mut r: R,/r: &mut R,/ | sub=/r.read_exact(&mut buf)?/r.read_exact(buf.as_mut_slice())?/ | sub=/bytes: buf.to_vec(),/bytes: to_vec_u8(&buf),/
 	requires within_input_bound(&*old(state)), state_swf(&*old(state)), (*old(r)).inv(),
@@ -700,6 +724,7 @@ pub open spec fn event_effect(a: &ParseState, b: &ParseState, code0: u8, p: Seq<
 		res is Ok ==> rows_aligned(&*final(state)) /*[C04.rows_stay_aligned_with_frames]*/,
 		res is Ok ==> event_effect(&*old(state), &*final(state), (*old(r)).rest()[0], (*old(r)).rest().subrange(1, 1 + payload_size(&*old(state), (*old(r)).rest()[0]))) /*[C04.event_effect]*/,
 		(*final(r)).hit_eof() ==> res is Err /*[C07.eof_is_an_error]*/,
+		event_long_enough(&*old(state), (*old(r)).rest()) ==> res is Ok /*[C08.sized_event_accepted]*/,
 //@end
 //@fn src/io/slippi/de.rs | - | parse_event | ret=res | twin=__other | drop=if let Some\(ref d\) = opts | drop=\*state\.event_counts\.entry | sigsub=/mut r: R,/r: &mut R,/ | sub=/r.read_exact(&mut buf)?/r.read_exact(buf.as_mut_slice())?/ | sub=/bytes: buf.to_vec(),/bytes: to_vec_u8(&buf),/
 	requires within_input_bound(&*old(state)), state_swf(&*old(state)), (*old(r)).inv(),
@@ -714,6 +739,7 @@ pub open spec fn event_effect(a: &ParseState, b: &ParseState, code0: u8, p: Seq<
 		res is Ok ==> rows_aligned(&*final(state)) /*[C04.rows_stay_aligned_with_frames]*/,
 		res is Ok ==> event_effect(&*old(state), &*final(state), (*old(r)).rest()[0], (*old(r)).rest().subrange(1, 1 + payload_size(&*old(state), (*old(r)).rest()[0]))) /*[C04.event_effect]*/,
 		(*final(r)).hit_eof() ==> res is Err /*[C07.eof_is_an_error]*/,
+		event_long_enough(&*old(state), (*old(r)).rest()) ==> res is Ok /*[C08.sized_event_accepted]*/,
 //@end
 
 // ---- C06: the same bodies with NO premise on the bytes: every assert / unwrap / index / arithmetic site must be safe ----
